@@ -286,6 +286,7 @@ package implementation
 //@ spec tupleLists(n string, d int) bool = abidec_TokenTuplesParam_ZnnPercentages_len(n, d) == abidec_TokenTuplesParam_TokenStandards_len(n, d) && abidec_TokenTuplesParam_QsrPercentages_len(n, d) == abidec_TokenTuplesParam_TokenStandards_len(n, d) && abidec_TokenTuplesParam_MinAmounts_len(n, d) == abidec_TokenTuplesParam_TokenStandards_len(n, d)
 //@ func SetTokenTupleMethod.ValidateSendBlock(p, block) -> (err)
 //@   ensures[the-call-data-left-in-the-block-is-the-canonical-re-encoding] err == nil && calls("PackMethod") >= 1 ==> bytesval(block.Data) == lastpacked()
+//@   ensures[an-accepted-call-was-re-encoded] err == nil ==> calls("PackMethod") >= 1
 //@   attr uses abi-roundtrip-token-tuples
 //@   safety
 //@   requires p != nil && block != nil && block.Amount != nil
@@ -351,6 +352,7 @@ package implementation
 //@   safety
 //@ func FuseMethod.ValidateSendBlock(p, block) -> (err)
 //@   ensures[the-call-data-left-in-the-block-is-the-canonical-re-encoding] err == nil && calls("PackMethod") >= 1 ==> bytesval(block.Data) == lastpacked()
+//@   ensures[an-accepted-call-was-re-encoded] err == nil ==> calls("PackMethod") >= 1
 //@   safety
 //@   inline
 // the weighted stake is a new number; computing it changes nothing else
@@ -619,192 +621,256 @@ package implementation
 //@ func ActivateSporkMethod.ValidateSendBlock(p, block) -> (err)
 //@   inline
 //@   ensures[the-call-data-left-in-the-block-is-the-canonical-re-encoding] err == nil && calls("PackMethod") >= 1 ==> bytesval(block.Data) == lastpacked()
+//@   ensures[an-accepted-call-was-re-encoded] err == nil ==> calls("PackMethod") >= 1
 //@ func AddPhaseMethod.ValidateSendBlock(p, block) -> (err)
 //@   inline
 //@   ensures[the-call-data-left-in-the-block-is-the-canonical-re-encoding] err == nil && calls("PackMethod") >= 1 ==> bytesval(block.Data) == lastpacked()
+//@   ensures[an-accepted-call-was-re-encoded] err == nil ==> calls("PackMethod") >= 1
 //@ func AllowHtlcProxyUnlockMethod.ValidateSendBlock(p, block) -> (err)
 //@   inline
 //@   ensures[the-call-data-left-in-the-block-is-the-canonical-re-encoding] err == nil && calls("PackMethod") >= 1 ==> bytesval(block.Data) == lastpacked()
+//@   ensures[an-accepted-call-was-re-encoded] err == nil ==> calls("PackMethod") >= 1
 //@ func BurnMethod.ValidateSendBlock(p, block) -> (err)
 //@   inline
 //@   ensures[the-call-data-left-in-the-block-is-the-canonical-re-encoding] err == nil && calls("PackMethod") >= 1 ==> bytesval(block.Data) == lastpacked()
+//@   ensures[an-accepted-call-was-re-encoded] err == nil ==> calls("PackMethod") >= 1
 //@ func BurnZnnMethod.ValidateSendBlock(p, block) -> (err)
 //@   inline
 //@   ensures[the-call-data-left-in-the-block-is-the-canonical-re-encoding] err == nil && calls("PackMethod") >= 1 ==> bytesval(block.Data) == lastpacked()
+//@   ensures[an-accepted-call-was-re-encoded] err == nil ==> calls("PackMethod") >= 1
 //@ func CancelFuseMethod.ValidateSendBlock(p, block) -> (err)
 //@   inline
 //@   ensures[the-call-data-left-in-the-block-is-the-canonical-re-encoding] err == nil && calls("PackMethod") >= 1 ==> bytesval(block.Data) == lastpacked()
+//@   ensures[an-accepted-call-was-re-encoded] err == nil ==> calls("PackMethod") >= 1
 //@ func CancelLiquidityStakeMethod.ValidateSendBlock(p, block) -> (err)
 //@   inline
 //@   ensures[the-call-data-left-in-the-block-is-the-canonical-re-encoding] err == nil && calls("PackMethod") >= 1 ==> bytesval(block.Data) == lastpacked()
+//@   ensures[an-accepted-call-was-re-encoded] err == nil ==> calls("PackMethod") >= 1
 //@ func CancelStakeMethod.ValidateSendBlock(p, block) -> (err)
 //@   inline
 //@   ensures[the-call-data-left-in-the-block-is-the-canonical-re-encoding] err == nil && calls("PackMethod") >= 1 ==> bytesval(block.Data) == lastpacked()
+//@   ensures[an-accepted-call-was-re-encoded] err == nil ==> calls("PackMethod") >= 1
 //@ func ChangeAdministratorLiquidity.ValidateSendBlock(p, block) -> (err)
 //@   inline
 //@   ensures[the-call-data-left-in-the-block-is-the-canonical-re-encoding] err == nil && calls("PackMethod") >= 1 ==> bytesval(block.Data) == lastpacked()
+//@   ensures[an-accepted-call-was-re-encoded] err == nil ==> calls("PackMethod") >= 1
 //@ func ChangeAdministratorMethod.ValidateSendBlock(p, block) -> (err)
 //@   inline
 //@   ensures[the-call-data-left-in-the-block-is-the-canonical-re-encoding] err == nil && calls("PackMethod") >= 1 ==> bytesval(block.Data) == lastpacked()
+//@   ensures[an-accepted-call-was-re-encoded] err == nil ==> calls("PackMethod") >= 1
 //@ func ChangeTssECDSAPubKeyMethod.ValidateSendBlock(p, block) -> (err)
 //@   inline
 //@   ensures[the-call-data-left-in-the-block-is-the-canonical-re-encoding] err == nil && calls("PackMethod") >= 1 ==> bytesval(block.Data) == lastpacked()
+//@   ensures[an-accepted-call-was-re-encoded] err == nil ==> calls("PackMethod") >= 1
 //@ func CollectRewardMethod.ValidateSendBlock(p, block) -> (err)
 //@   inline
 //@   ensures[the-call-data-left-in-the-block-is-the-canonical-re-encoding] err == nil && calls("PackMethod") >= 1 ==> bytesval(block.Data) == lastpacked()
+//@   ensures[an-accepted-call-was-re-encoded] err == nil ==> calls("PackMethod") >= 1
 //@ func CreateHtlcMethod.ValidateSendBlock(p, block) -> (err)
 //@   inline
 //@   ensures[the-call-data-left-in-the-block-is-the-canonical-re-encoding] err == nil && calls("PackMethod") >= 1 ==> bytesval(block.Data) == lastpacked()
+//@   ensures[an-accepted-call-was-re-encoded] err == nil ==> calls("PackMethod") >= 1
 //@ func CreateProjectMethod.ValidateSendBlock(p, block) -> (err)
 //@   inline
 //@   ensures[the-call-data-left-in-the-block-is-the-canonical-re-encoding] err == nil && calls("PackMethod") >= 1 ==> bytesval(block.Data) == lastpacked()
+//@   ensures[an-accepted-call-was-re-encoded] err == nil ==> calls("PackMethod") >= 1
 //@ func CreateSporkMethod.ValidateSendBlock(p, block) -> (err)
 //@   inline
 //@   ensures[the-call-data-left-in-the-block-is-the-canonical-re-encoding] err == nil && calls("PackMethod") >= 1 ==> bytesval(block.Data) == lastpacked()
+//@   ensures[an-accepted-call-was-re-encoded] err == nil ==> calls("PackMethod") >= 1
 //@ func DelegateMethod.ValidateSendBlock(p, block) -> (err)
 //@   inline
 //@   ensures[the-call-data-left-in-the-block-is-the-canonical-re-encoding] err == nil && calls("PackMethod") >= 1 ==> bytesval(block.Data) == lastpacked()
+//@   ensures[an-accepted-call-was-re-encoded] err == nil ==> calls("PackMethod") >= 1
 //@ func DenyHtlcProxyUnlockMethod.ValidateSendBlock(p, block) -> (err)
 //@   inline
 //@   ensures[the-call-data-left-in-the-block-is-the-canonical-re-encoding] err == nil && calls("PackMethod") >= 1 ==> bytesval(block.Data) == lastpacked()
+//@   ensures[an-accepted-call-was-re-encoded] err == nil ==> calls("PackMethod") >= 1
 //@ func DepositQsrMethod.ValidateSendBlock(p, block) -> (err)
 //@   inline
 //@   ensures[the-call-data-left-in-the-block-is-the-canonical-re-encoding] err == nil && calls("PackMethod") >= 1 ==> bytesval(block.Data) == lastpacked()
+//@   ensures[an-accepted-call-was-re-encoded] err == nil ==> calls("PackMethod") >= 1
 //@ func DonateMethod.ValidateSendBlock(p, block) -> (err)
 //@   inline
 //@   ensures[the-call-data-left-in-the-block-is-the-canonical-re-encoding] err == nil && calls("PackMethod") >= 1 ==> bytesval(block.Data) == lastpacked()
+//@   ensures[an-accepted-call-was-re-encoded] err == nil ==> calls("PackMethod") >= 1
 //@ func EmergencyLiquidity.ValidateSendBlock(p, block) -> (err)
 //@   inline
 //@   ensures[the-call-data-left-in-the-block-is-the-canonical-re-encoding] err == nil && calls("PackMethod") >= 1 ==> bytesval(block.Data) == lastpacked()
+//@   ensures[an-accepted-call-was-re-encoded] err == nil ==> calls("PackMethod") >= 1
 //@ func EmergencyMethod.ValidateSendBlock(p, block) -> (err)
 //@   inline
 //@   ensures[the-call-data-left-in-the-block-is-the-canonical-re-encoding] err == nil && calls("PackMethod") >= 1 ==> bytesval(block.Data) == lastpacked()
+//@   ensures[an-accepted-call-was-re-encoded] err == nil ==> calls("PackMethod") >= 1
 //@ func FundMethod.ValidateSendBlock(p, block) -> (err)
 //@   inline
 //@   ensures[the-call-data-left-in-the-block-is-the-canonical-re-encoding] err == nil && calls("PackMethod") >= 1 ==> bytesval(block.Data) == lastpacked()
+//@   ensures[an-accepted-call-was-re-encoded] err == nil ==> calls("PackMethod") >= 1
 //@ func HaltMethod.ValidateSendBlock(p, block) -> (err)
 //@   inline
 //@   ensures[the-call-data-left-in-the-block-is-the-canonical-re-encoding] err == nil && calls("PackMethod") >= 1 ==> bytesval(block.Data) == lastpacked()
+//@   ensures[an-accepted-call-was-re-encoded] err == nil ==> calls("PackMethod") >= 1
 //@ func IssueMethod.ValidateSendBlock(p, block) -> (err)
 //@   inline
 //@   ensures[the-call-data-left-in-the-block-is-the-canonical-re-encoding] err == nil && calls("PackMethod") >= 1 ==> bytesval(block.Data) == lastpacked()
+//@   ensures[an-accepted-call-was-re-encoded] err == nil ==> calls("PackMethod") >= 1
 //@ func LegacyRegisterMethod.ValidateSendBlock(p, block) -> (err)
 //@   inline
 //@   ensures[the-call-data-left-in-the-block-is-the-canonical-re-encoding] err == nil && calls("PackMethod") >= 1 ==> bytesval(block.Data) == lastpacked()
+//@   ensures[an-accepted-call-was-re-encoded] err == nil ==> calls("PackMethod") >= 1
 //@ func LiquidityStakeMethod.ValidateSendBlock(p, block) -> (err)
 //@   inline
 //@   ensures[the-call-data-left-in-the-block-is-the-canonical-re-encoding] err == nil && calls("PackMethod") >= 1 ==> bytesval(block.Data) == lastpacked()
+//@   ensures[an-accepted-call-was-re-encoded] err == nil ==> calls("PackMethod") >= 1
 //@ func MintMethod.ValidateSendBlock(p, block) -> (err)
 //@   inline
 //@   ensures[the-call-data-left-in-the-block-is-the-canonical-re-encoding] err == nil && calls("PackMethod") >= 1 ==> bytesval(block.Data) == lastpacked()
+//@   ensures[an-accepted-call-was-re-encoded] err == nil ==> calls("PackMethod") >= 1
 //@ func NominateGuardiansLiquidity.ValidateSendBlock(p, block) -> (err)
 //@   inline
 //@   ensures[the-call-data-left-in-the-block-is-the-canonical-re-encoding] err == nil && calls("PackMethod") >= 1 ==> bytesval(block.Data) == lastpacked()
+//@   ensures[an-accepted-call-was-re-encoded] err == nil ==> calls("PackMethod") >= 1
 //@ func NominateGuardiansMethod.ValidateSendBlock(p, block) -> (err)
 //@   inline
 //@   ensures[the-call-data-left-in-the-block-is-the-canonical-re-encoding] err == nil && calls("PackMethod") >= 1 ==> bytesval(block.Data) == lastpacked()
+//@   ensures[an-accepted-call-was-re-encoded] err == nil ==> calls("PackMethod") >= 1
 //@ func ProposeAdministratorLiquidity.ValidateSendBlock(p, block) -> (err)
 //@   inline
 //@   ensures[the-call-data-left-in-the-block-is-the-canonical-re-encoding] err == nil && calls("PackMethod") >= 1 ==> bytesval(block.Data) == lastpacked()
+//@   ensures[an-accepted-call-was-re-encoded] err == nil ==> calls("PackMethod") >= 1
 //@ func ProposeAdministratorMethod.ValidateSendBlock(p, block) -> (err)
 //@   inline
 //@   ensures[the-call-data-left-in-the-block-is-the-canonical-re-encoding] err == nil && calls("PackMethod") >= 1 ==> bytesval(block.Data) == lastpacked()
+//@   ensures[an-accepted-call-was-re-encoded] err == nil ==> calls("PackMethod") >= 1
 //@ func ReclaimHtlcMethod.ValidateSendBlock(p, block) -> (err)
 //@   inline
 //@   ensures[the-call-data-left-in-the-block-is-the-canonical-re-encoding] err == nil && calls("PackMethod") >= 1 ==> bytesval(block.Data) == lastpacked()
+//@   ensures[an-accepted-call-was-re-encoded] err == nil ==> calls("PackMethod") >= 1
 //@ func RedeemMethod.ValidateSendBlock(p, block) -> (err)
 //@   inline
 //@   ensures[the-call-data-left-in-the-block-is-the-canonical-re-encoding] err == nil && calls("PackMethod") >= 1 ==> bytesval(block.Data) == lastpacked()
+//@   ensures[an-accepted-call-was-re-encoded] err == nil ==> calls("PackMethod") >= 1
 //@ func RegisterMethod.ValidateSendBlock(p, block) -> (err)
 //@   inline
 //@   ensures[the-call-data-left-in-the-block-is-the-canonical-re-encoding] err == nil && calls("PackMethod") >= 1 ==> bytesval(block.Data) == lastpacked()
+//@   ensures[an-accepted-call-was-re-encoded] err == nil ==> calls("PackMethod") >= 1
 //@ func RemoveNetworkMethod.ValidateSendBlock(p, block) -> (err)
 //@   inline
 //@   ensures[the-call-data-left-in-the-block-is-the-canonical-re-encoding] err == nil && calls("PackMethod") >= 1 ==> bytesval(block.Data) == lastpacked()
+//@   ensures[an-accepted-call-was-re-encoded] err == nil ==> calls("PackMethod") >= 1
 //@ func RemoveTokenPairMethod.ValidateSendBlock(p, block) -> (err)
 //@   inline
 //@   ensures[the-call-data-left-in-the-block-is-the-canonical-re-encoding] err == nil && calls("PackMethod") >= 1 ==> bytesval(block.Data) == lastpacked()
+//@   ensures[an-accepted-call-was-re-encoded] err == nil ==> calls("PackMethod") >= 1
 //@ func RevokeMethod.ValidateSendBlock(p, block) -> (err)
 //@   inline
 //@   ensures[the-call-data-left-in-the-block-is-the-canonical-re-encoding] err == nil && calls("PackMethod") >= 1 ==> bytesval(block.Data) == lastpacked()
+//@   ensures[an-accepted-call-was-re-encoded] err == nil ==> calls("PackMethod") >= 1
 //@ func RevokeUnwrapRequestMethod.ValidateSendBlock(p, block) -> (err)
 //@   inline
 //@   ensures[the-call-data-left-in-the-block-is-the-canonical-re-encoding] err == nil && calls("PackMethod") >= 1 ==> bytesval(block.Data) == lastpacked()
+//@   ensures[an-accepted-call-was-re-encoded] err == nil ==> calls("PackMethod") >= 1
 //@ func SetAdditionalReward.ValidateSendBlock(p, block) -> (err)
 //@   inline
 //@   ensures[the-call-data-left-in-the-block-is-the-canonical-re-encoding] err == nil && calls("PackMethod") >= 1 ==> bytesval(block.Data) == lastpacked()
+//@   ensures[an-accepted-call-was-re-encoded] err == nil ==> calls("PackMethod") >= 1
 //@ func SetAllowKeygenMethod.ValidateSendBlock(p, block) -> (err)
 //@   inline
 //@   ensures[the-call-data-left-in-the-block-is-the-canonical-re-encoding] err == nil && calls("PackMethod") >= 1 ==> bytesval(block.Data) == lastpacked()
+//@   ensures[an-accepted-call-was-re-encoded] err == nil ==> calls("PackMethod") >= 1
 //@ func SetBridgeMetadataMethod.ValidateSendBlock(p, block) -> (err)
 //@   inline
 //@   ensures[the-call-data-left-in-the-block-is-the-canonical-re-encoding] err == nil && calls("PackMethod") >= 1 ==> bytesval(block.Data) == lastpacked()
+//@   ensures[an-accepted-call-was-re-encoded] err == nil ==> calls("PackMethod") >= 1
 //@ func SetIsHalted.ValidateSendBlock(p, block) -> (err)
 //@   inline
 //@   ensures[the-call-data-left-in-the-block-is-the-canonical-re-encoding] err == nil && calls("PackMethod") >= 1 ==> bytesval(block.Data) == lastpacked()
+//@   ensures[an-accepted-call-was-re-encoded] err == nil ==> calls("PackMethod") >= 1
 //@ func SetNetworkMetadataMethod.ValidateSendBlock(p, block) -> (err)
 //@   inline
 //@   ensures[the-call-data-left-in-the-block-is-the-canonical-re-encoding] err == nil && calls("PackMethod") >= 1 ==> bytesval(block.Data) == lastpacked()
+//@   ensures[an-accepted-call-was-re-encoded] err == nil ==> calls("PackMethod") >= 1
 //@ func SetNetworkMethod.ValidateSendBlock(p, block) -> (err)
 //@   inline
 //@   ensures[the-call-data-left-in-the-block-is-the-canonical-re-encoding] err == nil && calls("PackMethod") >= 1 ==> bytesval(block.Data) == lastpacked()
+//@   ensures[an-accepted-call-was-re-encoded] err == nil ==> calls("PackMethod") >= 1
 //@ func SetOrchestratorInfoMethod.ValidateSendBlock(p, block) -> (err)
 //@   inline
 //@   ensures[the-call-data-left-in-the-block-is-the-canonical-re-encoding] err == nil && calls("PackMethod") >= 1 ==> bytesval(block.Data) == lastpacked()
+//@   ensures[an-accepted-call-was-re-encoded] err == nil ==> calls("PackMethod") >= 1
 //@ func SetTokenPairMethod.ValidateSendBlock(p, block) -> (err)
 //@   inline
 //@   ensures[the-call-data-left-in-the-block-is-the-canonical-re-encoding] err == nil && calls("PackMethod") >= 1 ==> bytesval(block.Data) == lastpacked()
+//@   ensures[an-accepted-call-was-re-encoded] err == nil ==> calls("PackMethod") >= 1
 //@ func StakeMethod.ValidateSendBlock(p, block) -> (err)
 //@   inline
 //@   ensures[the-call-data-left-in-the-block-is-the-canonical-re-encoding] err == nil && calls("PackMethod") >= 1 ==> bytesval(block.Data) == lastpacked()
+//@   ensures[an-accepted-call-was-re-encoded] err == nil ==> calls("PackMethod") >= 1
 //@ func SwapRetrieveAssetsMethod.ValidateSendBlock(p, block) -> (err)
 //@   inline
 //@   ensures[the-call-data-left-in-the-block-is-the-canonical-re-encoding] err == nil && calls("PackMethod") >= 1 ==> bytesval(block.Data) == lastpacked()
+//@   ensures[an-accepted-call-was-re-encoded] err == nil ==> calls("PackMethod") >= 1
 //@ func UndelegateMethod.ValidateSendBlock(p, block) -> (err)
 //@   inline
 //@   ensures[the-call-data-left-in-the-block-is-the-canonical-re-encoding] err == nil && calls("PackMethod") >= 1 ==> bytesval(block.Data) == lastpacked()
+//@   ensures[an-accepted-call-was-re-encoded] err == nil ==> calls("PackMethod") >= 1
 //@ func UnhaltMethod.ValidateSendBlock(p, block) -> (err)
 //@   inline
 //@   ensures[the-call-data-left-in-the-block-is-the-canonical-re-encoding] err == nil && calls("PackMethod") >= 1 ==> bytesval(block.Data) == lastpacked()
+//@   ensures[an-accepted-call-was-re-encoded] err == nil ==> calls("PackMethod") >= 1
 //@ func UnlockHtlcMethod.ValidateSendBlock(p, block) -> (err)
 //@   inline
 //@   ensures[the-call-data-left-in-the-block-is-the-canonical-re-encoding] err == nil && calls("PackMethod") >= 1 ==> bytesval(block.Data) == lastpacked()
+//@   ensures[an-accepted-call-was-re-encoded] err == nil ==> calls("PackMethod") >= 1
 //@ func UnlockLiquidityStakeEntries.ValidateSendBlock(p, block) -> (err)
 //@   inline
 //@   ensures[the-call-data-left-in-the-block-is-the-canonical-re-encoding] err == nil && calls("PackMethod") >= 1 ==> bytesval(block.Data) == lastpacked()
+//@   ensures[an-accepted-call-was-re-encoded] err == nil ==> calls("PackMethod") >= 1
 //@ func UnwrapTokenMethod.ValidateSendBlock(p, block) -> (err)
 //@   inline
 //@   ensures[the-call-data-left-in-the-block-is-the-canonical-re-encoding] err == nil && calls("PackMethod") >= 1 ==> bytesval(block.Data) == lastpacked()
+//@   ensures[an-accepted-call-was-re-encoded] err == nil ==> calls("PackMethod") >= 1
 //@ func UpdateEmbeddedAcceleratorMethod.ValidateSendBlock(p, block) -> (err)
 //@   inline
 //@   ensures[the-call-data-left-in-the-block-is-the-canonical-re-encoding] err == nil && calls("PackMethod") >= 1 ==> bytesval(block.Data) == lastpacked()
+//@   ensures[an-accepted-call-was-re-encoded] err == nil ==> calls("PackMethod") >= 1
 //@ func UpdateEmbeddedPillarMethod.ValidateSendBlock(p, block) -> (err)
 //@   inline
 //@   ensures[the-call-data-left-in-the-block-is-the-canonical-re-encoding] err == nil && calls("PackMethod") >= 1 ==> bytesval(block.Data) == lastpacked()
+//@   ensures[an-accepted-call-was-re-encoded] err == nil ==> calls("PackMethod") >= 1
 //@ func UpdateEmbeddedStakeMethod.ValidateSendBlock(p, block) -> (err)
 //@   inline
 //@   ensures[the-call-data-left-in-the-block-is-the-canonical-re-encoding] err == nil && calls("PackMethod") >= 1 ==> bytesval(block.Data) == lastpacked()
+//@   ensures[an-accepted-call-was-re-encoded] err == nil ==> calls("PackMethod") >= 1
 //@ func UpdatePhaseMethod.ValidateSendBlock(p, block) -> (err)
 //@   inline
 //@   ensures[the-call-data-left-in-the-block-is-the-canonical-re-encoding] err == nil && calls("PackMethod") >= 1 ==> bytesval(block.Data) == lastpacked()
+//@   ensures[an-accepted-call-was-re-encoded] err == nil ==> calls("PackMethod") >= 1
 //@ func UpdatePillarMethod.ValidateSendBlock(p, block) -> (err)
 //@   inline
 //@   ensures[the-call-data-left-in-the-block-is-the-canonical-re-encoding] err == nil && calls("PackMethod") >= 1 ==> bytesval(block.Data) == lastpacked()
+//@   ensures[an-accepted-call-was-re-encoded] err == nil ==> calls("PackMethod") >= 1
 //@ func UpdateTokenMethod.ValidateSendBlock(p, block) -> (err)
 //@   inline
 //@   ensures[the-call-data-left-in-the-block-is-the-canonical-re-encoding] err == nil && calls("PackMethod") >= 1 ==> bytesval(block.Data) == lastpacked()
+//@   ensures[an-accepted-call-was-re-encoded] err == nil ==> calls("PackMethod") >= 1
 //@ func UpdateWrapRequestMethod.ValidateSendBlock(p, block) -> (err)
 //@   inline
 //@   ensures[the-call-data-left-in-the-block-is-the-canonical-re-encoding] err == nil && calls("PackMethod") >= 1 ==> bytesval(block.Data) == lastpacked()
+//@   ensures[an-accepted-call-was-re-encoded] err == nil ==> calls("PackMethod") >= 1
 //@ func VoteByNameMethod.ValidateSendBlock(p, block) -> (err)
 //@   inline
 //@   ensures[the-call-data-left-in-the-block-is-the-canonical-re-encoding] err == nil && calls("PackMethod") >= 1 ==> bytesval(block.Data) == lastpacked()
+//@   ensures[an-accepted-call-was-re-encoded] err == nil ==> calls("PackMethod") >= 1
 //@ func VoteByProdAddressMethod.ValidateSendBlock(p, block) -> (err)
 //@   inline
 //@   ensures[the-call-data-left-in-the-block-is-the-canonical-re-encoding] err == nil && calls("PackMethod") >= 1 ==> bytesval(block.Data) == lastpacked()
+//@   ensures[an-accepted-call-was-re-encoded] err == nil ==> calls("PackMethod") >= 1
 //@ func WithdrawQsrMethod.ValidateSendBlock(p, block) -> (err)
 //@   inline
 //@   ensures[the-call-data-left-in-the-block-is-the-canonical-re-encoding] err == nil && calls("PackMethod") >= 1 ==> bytesval(block.Data) == lastpacked()
+//@   ensures[an-accepted-call-was-re-encoded] err == nil ==> calls("PackMethod") >= 1
 //@ func WrapTokenMethod.ValidateSendBlock(p, block) -> (err)
 //@   inline
 //@   ensures[the-call-data-left-in-the-block-is-the-canonical-re-encoding] err == nil && calls("PackMethod") >= 1 ==> bytesval(block.Data) == lastpacked()
+//@   ensures[an-accepted-call-was-re-encoded] err == nil ==> calls("PackMethod") >= 1
